@@ -277,6 +277,9 @@ func init() {
 		"strings.TrimPrefix":             uninterp("strings_TrimPrefix"),
 		"strings.Join":                   pureFresh,
 		"strings.Split":                  pureFresh,
+		"strings.SplitN":                 pureFresh,
+		"strconv.Atoi":                   pureFresh, // any int (also negative), or an error
+		"regexp.Compile":                 pureFresh,
 		"strings.Fields":                 pureFresh,
 		"strings.Repeat":                 pureFresh,
 		"(*strings.Builder).WriteString": pureFresh,
